@@ -146,6 +146,55 @@ pub fn fuzz_stage(ctx: &Ctx, build_dir: &Path, budget: Duration) -> (u64, Vec<Va
     (violations, fuzz_reports, harness_error)
 }
 
+/// Output of a (possibly parallel) interpreted run.
+struct MiriOut {
+    success: bool,
+    stdout: String,
+    stderr: String,
+}
+
+/// Run `mlv-miri <sub> <count> <seed> <start>` under Miri, splitting the case range over up to 12 concurrent
+/// interpreters (the interpreter is single-threaded).  The outputs are concatenated; with a failure, the failing
+/// part's output comes last so that "last MIRI-CASE" still identifies the failing case.
+fn miri_parallel(harness: &Path, build_dir: &Path, target: Option<&str>, flags: &str, sub: &str, count: u64, seed: u64, per_part: u64) -> Result<MiriOut, String> {
+    let parts = if count == 0 { 1 } else { (count / per_part.max(1)).clamp(1, 12) };
+    let mut children = Vec::new();
+    for p in 0..parts {
+        let lo = count * p / parts;
+        let hi = count * (p + 1) / parts;
+        let mut cmd = Command::new("cargo");
+        cmd.current_dir(harness).args(["+nightly", "miri", "run", "-q"]);
+        if let Some(t) = target {
+            cmd.args(["--target", t]);
+        }
+        cmd.args(["-p", "mlv", "--bin", "mlv-miri", "--"])
+            .args([sub, &(hi - lo).to_string(), &seed.to_string(), &lo.to_string()])
+            .env("MIRIFLAGS", flags)
+            .env("CARGO_TARGET_DIR", build_dir.join("miri"))
+            .env("CARGO_NET_OFFLINE", "true")
+            .stdin(Stdio::null())
+            .stdout(Stdio::piped())
+            .stderr(Stdio::piped());
+        children.push(cmd.spawn().map_err(|e| format!("cannot run Miri: {e}"))?);
+    }
+    let mut good = (String::new(), String::new());
+    let mut bad: Option<(String, String)> = None;
+    for c in children {
+        let out = c.wait_with_output().map_err(|e| format!("cannot run Miri: {e}"))?;
+        let (so, se) = (String::from_utf8_lossy(&out.stdout).to_string(), String::from_utf8_lossy(&out.stderr).to_string());
+        if out.status.success() && so.contains("MIRI-OK") {
+            good.0.push_str(&so);
+            good.1.push_str(&se);
+        } else if bad.is_none() {
+            bad = Some((so, se));
+        }
+    }
+    Ok(match bad {
+        None => MiriOut { success: true, stdout: good.0, stderr: good.1 },
+        Some((so, se)) => MiriOut { success: false, stdout: good.0 + &so, stderr: good.1 + &se },
+    })
+}
+
 /// Thorough tier of C08 / C12 / C13: a few hundred small generated cases under
 /// Miri with tree borrows (stricter than ASan: uninitialised reads, provenance).
 /// Returns (violations, report, harness_error).
@@ -157,31 +206,20 @@ pub fn miri_stage(ctx: &Ctx, build_dir: &Path) -> (u64, Option<Value>, Option<St
     // quick: a handful of generated operation histories, so that undefined behaviour which leaves the values
     // intact (reads of never-written limbs, out-of-bounds pointer arithmetic) is visible on every change
     let default_count = match (ctx.tier.name(), ctx.id.as_str()) {
-        ("quick", "C12") => 12,
-        ("quick", _) => 4,
+        ("quick", "C12") => 24,
+        ("quick", _) => 8,
         _ => 300,
     };
     let count = std::env::var("VERIF_MIRI_CASES").ok().and_then(|s| s.parse::<u64>().ok()).unwrap_or(default_count);
-    let mut cmd = Command::new("cargo");
-    cmd.current_dir(&harness)
-        .args(["+nightly", "miri", "run", "-q", "-p", "mlv", "--bin", "mlv-miri", "--"])
-        .args([ctx.id.as_str(), &count.to_string(), &ctx.seed.to_string()])
-        .env("MIRIFLAGS", "-Zmiri-tree-borrows -Zmiri-disable-isolation")
-        .env("CARGO_TARGET_DIR", build_dir.join("miri"))
-        .env("CARGO_NET_OFFLINE", "true")
-        .stdin(Stdio::null())
-        .stdout(Stdio::piped())
-        .stderr(Stdio::piped());
     let start = Instant::now();
-    let out = match cmd.output() {
+    let out = match miri_parallel(&harness, build_dir, None, "-Zmiri-tree-borrows -Zmiri-disable-isolation", ctx.id.as_str(), count, ctx.seed, 2) {
         Ok(o) => o,
-        Err(e) => return (0, None, Some(format!("cannot run Miri: {e}"))),
+        Err(e) => return (0, None, Some(e)),
     };
-    let stdout = String::from_utf8_lossy(&out.stdout).to_string();
-    let stderr = String::from_utf8_lossy(&out.stderr).to_string();
+    let (stdout, stderr) = (out.stdout.clone(), out.stderr.clone());
     let last_case = stdout.lines().filter(|l| l.starts_with("MIRI-CASE")).last().unwrap_or("").to_string();
-    let report = json!({"engine": "Miri (tree borrows)", "cases": count, "wall_s": start.elapsed().as_secs_f64(), "ok": out.status.success(), "last_case": last_case});
-    if out.status.success() && stdout.contains("MIRI-OK") {
+    let report = json!({"engine": "Miri (tree borrows), up to 12 interpreters in parallel", "cases": count, "wall_s": start.elapsed().as_secs_f64(), "ok": out.success, "last_case": last_case});
+    if out.success {
         return (0, Some(report), None);
     }
     if stderr.contains("Undefined Behavior") || stdout.contains("MIRI-VIOLATION") {
@@ -273,34 +311,24 @@ pub fn l32_stage(ctx: &Ctx, build_dir: &Path) -> (u64, Option<Value>, Option<Str
     };
     let harness = ctx.verif_dir.join("harness");
     let count: u64 = match (ctx.tier.name(), ctx.id.as_str()) {
-        ("quick", "C12") => 8,
-        ("quick", "C13") => 2,
+        ("quick", "C12") => 16,
+        ("quick", "C13") => 4,
         ("quick", _) => 4,
         (_, "C13") => std::env::var("VERIF_L32_CASES").ok().and_then(|s| s.parse().ok()).unwrap_or(40),
         _ => std::env::var("VERIF_L32_CASES").ok().and_then(|s| s.parse().ok()).unwrap_or(150),
     };
-    let mut cmd = Command::new("cargo");
-    cmd.current_dir(&harness)
-        .args(["+nightly", "miri", "run", "-q", "--target", "i686-unknown-linux-gnu", "-p", "mlv", "--bin", "mlv-miri", "--"])
-        .args([sub, &count.to_string(), &ctx.seed.to_string()])
-        .env("MIRIFLAGS", "-Zmiri-tree-borrows -Zmiri-disable-isolation -Zmiri-no-extra-rounding-error")
-        .env("CARGO_TARGET_DIR", build_dir.join("miri"))
-        .env("CARGO_NET_OFFLINE", "true")
-        .stdin(Stdio::null())
-        .stdout(Stdio::piped())
-        .stderr(Stdio::piped());
     let start = Instant::now();
-    let out = match cmd.output() {
+    let per_part = if sub == "L32" { 12 } else if sub == "U32" { u64::MAX } else if sub == "C13" { 1 } else { 2 };
+    let out = match miri_parallel(&harness, build_dir, Some("i686-unknown-linux-gnu"), "-Zmiri-tree-borrows -Zmiri-disable-isolation -Zmiri-no-extra-rounding-error", sub, count, ctx.seed, per_part) {
         Ok(o) => o,
-        Err(e) => return (0, None, Some(format!("cannot run Miri (i686): {e}"))),
+        Err(e) => return (0, None, Some(e)),
     };
-    let stdout = String::from_utf8_lossy(&out.stdout).to_string();
-    let stderr = String::from_utf8_lossy(&out.stderr).to_string();
+    let (stdout, stderr) = (out.stdout.clone(), out.stderr.clone());
     let cases = stdout.lines().filter(|l| l.starts_with("MIRI-CASE")).count();
     let report = json!({"engine": "Miri, --target i686-unknown-linux-gnu (32-bit limbs), tree borrows", "generated_inputs": count, "steps_executed": cases,
-                        "wall_s": start.elapsed().as_secs_f64(), "ok": out.status.success(),
+                        "wall_s": start.elapsed().as_secs_f64(), "ok": out.success,
                         "samples": stdout.lines().filter(|l| l.starts_with("MIRI-CASE")).take(6).collect::<Vec<_>>() });
-    if out.status.success() && stdout.contains(&format!("MIRI-OK {sub}")) && stdout.contains("pointer width = 32") {
+    if out.success && stdout.contains(&format!("MIRI-OK {sub}")) && stdout.contains("pointer width = 32") {
         return (0, Some(report), None);
     }
     if let Some(v) = stdout.lines().find(|l| l.starts_with("MIRI-VIOLATION")) {
